@@ -4,7 +4,7 @@
    them Python) is decided by the three-way correspondence/oracle run, see DESIGN §7 C07 — the
    theorems named *_partial below say what part of the full statement is proved. *)
 From OptreeModel Require Import Base Tree Flatten Unflatten Spec.
-From OptreeProofs Require Import SpecProofs OrderProofs.
+From OptreeProofs Require Import SpecProofs OrderProofs PrefixOrder JoinOrder FlattenGood.
 
 (* reflexive; comparing a treespec with itself never is a strict prefix *)
 Theorem C07_prefix_refl :
@@ -34,6 +34,32 @@ Print Assumptions C07_prefix_requires_same_options.
 
 (* non-vacuity, and the dict-kind / key-order / maxlen equivalences on a concrete pair, including
    the nested re-ordering that defect F3 broke *)
+(* the prefix relation on structured treespecs is transitive — no side condition *)
+Theorem C07_prefix_trans :
+  forall a b c, fst (st_prefix a b) = true -> fst (st_prefix b c) = true -> fst (st_prefix a c) = true.
+Proof. exact prefix_trans. Qed.
+Print Assumptions C07_prefix_trans.
+
+(* at the level of treespecs (none_is_leaf, namespace, node-count shortcut included): transitive
+   whenever the outer namespaces are compatible; 'a' <= '' <= 'b' is the counterexample otherwise *)
+Theorem C07_is_prefix_trans :
+  forall a b c, ns_compatible (ss_ns a) (ss_ns c) = true ->
+  ss_is_prefix a b false = true -> ss_is_prefix b c false = true -> ss_is_prefix a c false = true.
+Proof. exact ss_prefix_trans. Qed.
+Print Assumptions C07_is_prefix_trans.
+
+Theorem C07_is_prefix_trans_refuted_across_namespaces :
+  exists a b c, ss_is_prefix a b false = true /\ ss_is_prefix b c false = true /\ ss_is_prefix a c false = false.
+Proof. exact ss_prefix_trans_refuted_across_namespaces. Qed.
+Print Assumptions C07_is_prefix_trans_refuted_across_namespaces.
+
+(* the side conditions of C07_prefix_refl hold for everything flatten produces *)
+Theorem C07_flatten_gives_good_treespecs :
+  forall c o ls sp, wf_obj o = true -> flatten c o = Ok (ls, sp) ->
+  exists s, sspec_of sp = Some s /\ good (stree_of s) = true.
+Proof. exact flatten_good. Qed.
+Print Assumptions C07_flatten_gives_good_treespecs.
+
 Example C07_example :
   let c := {| c_nil := false; c_ns := 0; c_pred := None; c_reg := []; c_ins := []; c_limit := 1000 |} in
   let pre := Node (HODict [KStr [98]; KStr [97]])
